@@ -20,6 +20,7 @@ import (
 	"errors"
 	"fmt"
 	"regexp/syntax"
+	"sort"
 	"sync"
 )
 
@@ -150,7 +151,17 @@ func (d *typeDictionary) resolveTypedefs() []error {
 	// When resolve typedefs, we may need to look up other typedefs.
 	// We gather all typedefs into a slice so we don't deadlock on
 	// typeDict.
-	for _, td := range d.typedefs() {
+	tds := d.typedefs()
+	// Which typedef of a cycle reports the cycle depends on the one that is
+	// resolved first.  Resolve them in the order of their places in the
+	// source rather than in the order the dictionary yields them.
+	sort.SliceStable(tds, func(i, j int) bool {
+		if si, sj := Source(tds[i]), Source(tds[j]); si != sj {
+			return si < sj
+		}
+		return tds[i].Name < tds[j].Name
+	})
+	for _, td := range tds {
 		errs = append(errs, td.resolve(d)...)
 	}
 	return errs
